@@ -2,7 +2,7 @@ use crate::{
     graph::Reader,
     model::{
         document::{Document, DocumentInline},
-        InlineRange, Position,
+        is_ref_url, InlineRange, Position,
     },
 };
 pub struct Parser {
@@ -24,7 +24,12 @@ impl Parser {
     }
 
     pub fn url_at(&self, position: Position) -> Option<String> {
-        self.document.link_at(position).and_then(|link| link.url())
+        // only a link that names a note leads anywhere in the library: an address, an
+        // absolute path or an anchor does not, and the graph does not follow it either
+        self.document
+            .link_at(position)
+            .and_then(|link| link.url())
+            .filter(|url| is_ref_url(url))
     }
 
     // The range of the destination of the link at the position, found in the source text:
@@ -38,7 +43,13 @@ impl Parser {
         let end = self.offset(range.end)?;
         let source = self.content.get(start..end)?;
 
-        let after_opening = if source.starts_with("[[") {
+        if !is_ref_url(&url) {
+            return None;
+        }
+
+        // (the kind of the link as the parser saw it: "[[WIP] Roadmap](roadmap)" is an ordinary
+        // link whose text begins with a bracket)
+        let after_opening = if link.is_wiki_link() {
             2
         } else if source.starts_with('<') {
             1
